@@ -852,3 +852,357 @@ def specialize(cd: dict, args: List[dict]) -> dict:
     cd2 = dict(cd)
     cd2["fields"] = [dict(f, t=rec(f["t"])) for f in cd["fields"]]
     return cd2
+
+
+# ---------------------------------------------------------------------------------------
+# serialization (de_serialization.md "Serialization", data_model.md; DESIGN Appendix A)
+# ---------------------------------------------------------------------------------------
+
+class Unordered(list):
+    """JSON array whose order is not specified (image of a set)."""
+
+
+class SerOpts:
+    def __init__(self, aliaser="id", exclude_none=False, exclude_defaults=False, exclude_unset=True,
+                 additional_properties=False, **_):
+        self.aliaser = aliaser
+        self.exclude_none = exclude_none
+        self.exclude_defaults = exclude_defaults
+        self.exclude_unset = exclude_unset
+        self.additional_properties = additional_properties
+
+
+class Mismatch(Exception):
+    """The value is not a value of the type (used for union alternative selection)."""
+
+
+ABC_OF = {
+    "list": {"List", "list", "MutableSequence", "Sequence", "Collection"},
+    "tuple": {"Tuple", "tuple", "Sequence", "Collection"},
+    "set": {"Set", "set", "MutableSet", "AbstractSet", "Collection"},
+    "frozenset": {"FrozenSet", "frozenset", "AbstractSet", "Collection"},
+    "dict": {"Dict", "dict", "MutableMapping", "Mapping", "Collection"},
+    "str": {"Sequence", "Collection"},
+}
+
+PRED = {"is_none": lambda c, prog=None: c[0] == "none",
+        "falsy": lambda c, prog=None: not truth(c, prog),
+        "truthy": lambda c, prog=None: truth(c, prog)}
+
+
+def truth(c, prog=None) -> bool:
+    tag = c[0]
+    if tag == "enum" and prog is not None:
+        e = next(e for e in prog["enums"] if e["name"] == c[1])
+        if e.get("base", "plain") in ("int", "str"):  # mixin enums have the truthiness of their value
+            return bool(dict((m, x) for m, x in e["members"])[c[2]])
+        return True
+    if tag in ("none", "undef"):
+        return False
+    if tag in ("bool", "int", "float", "str"):
+        return bool(c[1])
+    if tag in ("list", "tuple", "set", "frozenset", "dict"):
+        return bool(c[1])
+    if tag == "tdict":
+        return bool(c[1])
+    if tag == "enum":
+        return True  # plain Enum members are truthy; mixin enums are avoided with 'falsy' predicates
+    if tag == "obj":
+        return True
+    raise Unspecified("truthiness")
+
+
+def py_equal(a, b) -> bool:
+    """Python `==` between the values described by two canons (numbers compare by value)."""
+    ta, tb = a[0], b[0]
+    num = ("bool", "int", "float")
+    if ta in num and tb in num:
+        return a[1] == b[1]
+    if ta != tb:
+        if {ta, tb} == {"set", "frozenset"}:
+            return _mset(a[1]) == _mset(b[1])
+        return False
+    if ta in ("list", "tuple"):
+        return len(a[1]) == len(b[1]) and all(py_equal(x, y) for x, y in zip(a[1], b[1]))
+    if ta in ("set", "frozenset"):
+        return _mset(a[1]) == _mset(b[1])
+    if ta == "dict":
+        return len(a[1]) == len(b[1]) and all(any(py_equal(k1, k2) and py_equal(v1, v2) for k2, v2 in b[1]) for k1, v1 in a[1])
+    if ta == "tdict":
+        return a[1].keys() == b[1].keys() and all(py_equal(a[1][k], b[1][k]) for k in a[1])
+    if ta == "obj":
+        return a[1] == b[1] and a[2].keys() == b[2].keys() and all(py_equal(a[2][k], b[2][k]) for k in a[2])
+    return a == b
+
+
+def _mset(items):
+    return sorted(repr(pykey(x)) for x in items)
+
+
+def class_matches(prog: dict, t: dict, v) -> bool:
+    """isinstance(value, expected_class(alternative)) of union serialization."""
+    t0 = t
+    while t0["k"] in ("ann", "newtype"):
+        t0 = t0["of"] if t0["k"] == "ann" else prog["newtypes"][t0["i"]]["of"]
+    k, tag = t0["k"], v[0]
+    if k == "any":
+        return True
+    if k == "none":
+        return tag == "none"
+    if k == "bool":
+        return tag == "bool"
+    if k == "int":
+        return tag in ("int", "bool") or (tag == "enum" and _enum_base(prog, v[1]) == "int")
+    if k == "float":
+        return tag == "float"
+    if k == "str":
+        return tag == "str" or (tag == "enum" and _enum_base(prog, v[1]) == "str")
+    if k in ("list", "set", "frozenset", "map"):
+        runtime = {"list": "list", "tuple": "tuple", "set": "set", "frozenset": "frozenset", "dict": "dict", "tdict": "dict",
+                   "str": "str"}.get(tag)
+        if runtime is None:
+            if tag == "enum" and _enum_base(prog, v[1]) == "str":
+                runtime = "str"
+            elif tag == "obj" and _flavor(prog, v[1]) == "namedtuple":
+                runtime = "tuple"
+            else:
+                return False
+        return t0["sp"] in ABC_OF[runtime]
+    if k in ("tuple", "vartuple"):
+        return tag == "tuple" or (tag == "obj" and _flavor(prog, v[1]) == "namedtuple")
+    if k == "enum":
+        return tag == "enum" and v[1] == prog["enums"][t0["i"]]["name"]
+    if k == "cls":
+        cd = prog["classes"][t0["i"]]
+        if cd["flavor"] == "typeddict":
+            return tag in ("tdict", "dict")
+        return tag == "obj" and v[1] == cd["name"]
+    if k in ("opt", "union"):
+        return any(class_matches(prog, a, v) for a in union_alts(t0))
+    if k == "lit":
+        raise Unspecified("Literal is not supported in union serialization")
+    return False
+
+
+def _enum_base(prog, name):
+    return next(e for e in prog["enums"] if e["name"] == name).get("base", "plain")
+
+
+def _flavor(prog, name):
+    return next(c for c in prog["classes"] if c["name"] == name)["flavor"]
+
+
+def _ser(self, t: dict, v, top=False):
+    """-> JSON image.  Raises Mismatch when v is not a value of t."""
+    k, tag = t["k"], v[0]
+    prog = self.prog
+    if k == "any":
+        return self.ser_any(v)
+    if k in ("ann",):
+        return self.ser(t["of"], v)
+    if k == "newtype":
+        return self.ser(prog["newtypes"][t["i"]]["of"], v)
+    if k == "none":
+        if tag != "none":
+            raise Mismatch
+        return None
+    if k in ("bool", "int", "float", "str"):
+        if tag == "enum" and _enum_base(prog, v[1]) in ("int", "str"):
+            e = next(e for e in prog["enums"] if e["name"] == v[1])
+            val = dict((m, x) for m, x in e["members"])[v[2]]
+            if (k == "int" and isinstance(val, int)) or (k == "str" and isinstance(val, str)):
+                return val
+            raise Mismatch
+        ok = {"bool": tag == "bool", "int": tag in ("int", "bool"), "float": tag == "float", "str": tag == "str"}[k]
+        if not ok:
+            raise Mismatch
+        return v[1]
+    if k in ("opt", "union"):
+        alts = [a for a in union_alts(t) if a["k"] not in ("unsup", "undefined")]
+        if tag == "undef":
+            raise Mismatch
+        cands = [a for a in alts if class_matches(prog, a, v)]
+        if not cands:
+            raise Mismatch
+        try:
+            return self.ser(cands[0], v)
+        except Mismatch:
+            if len(cands) > 1:
+                raise Unspecified("value does not fit the first class-matching alternative")
+            raise
+    if k in ("list", "set", "frozenset", "vartuple"):
+        if tag not in ("list", "tuple", "set", "frozenset"):
+            raise Mismatch
+        items = [self.ser(t["of"], x) for x in v[1]]
+        return Unordered(items) if tag in ("set", "frozenset") else items
+    if k == "tuple":
+        if tag != "tuple" or len(v[1]) != len(t["items"]):
+            raise Mismatch
+        return [self.ser(it, x) for it, x in zip(t["items"], v[1])]
+    if k == "map":
+        if tag == "tdict":
+            v = ["dict", [[["str", kk], vv] for kk, vv in v[1].items()]]
+            tag = "dict"
+        if tag != "dict":
+            raise Mismatch
+        out = {}
+        for kc, vc in v[1]:
+            key = self.ser(t["key"], kc)
+            if not isinstance(key, str):
+                raise Unspecified("non-string serialized key")
+            out[key] = self.ser(t["val"], vc)
+        return out
+    if k == "lit":
+        for lv in t["values"]:
+            jv, cv = self.lit_value(lv)
+            if cv == v:
+                return jv
+        raise Mismatch
+    if k == "enum":
+        e = prog["enums"][t["i"]]
+        if tag != "enum" or v[1] != e["name"]:
+            raise Mismatch
+        return dict((m, x) for m, x in e["members"])[v[2]]
+    if k == "cls":
+        return self.ser_object(t, v)
+    if k in ("unsup", "undefined"):
+        raise Mismatch
+    raise Unspecified(f"kind {k}")
+
+
+def _ser_any(self, v):
+    """Any: serialized by runtime class (de_serialization.md "Serialization": type defaults to Any)."""
+    tag = v[0]
+    prog = self.prog
+    if tag == "none":
+        return None
+    if tag in ("bool", "int", "float", "str"):
+        return v[1]
+    if tag == "undef":
+        raise Unspecified("Undefined outside a field")
+    if tag in ("list", "tuple"):
+        return [self.ser_any(x) for x in v[1]]
+    if tag in ("set", "frozenset"):
+        return Unordered(self.ser_any(x) for x in v[1])
+    if tag == "dict":
+        out = {}
+        for kc, vc in v[1]:
+            key = self.ser_any(kc)
+            if not isinstance(key, str):
+                raise Unspecified("non-string serialized key")
+            out[key] = self.ser_any(vc)
+        return out
+    if tag == "tdict":
+        return {kk: self.ser_any(vv) for kk, vv in v[1].items()}
+    if tag == "enum":
+        e = next(e for e in prog["enums"] if e["name"] == v[1])
+        return dict((m, x) for m, x in e["members"])[v[2]]
+    if tag == "obj":
+        i = next(i for i, c in enumerate(prog["classes"]) if c["name"] == v[1])
+        return self.ser_object({"k": "cls", "i": i}, v)
+    raise Unspecified(f"any value {tag}")
+
+
+def _ser_object(self, t: dict, v):
+    prog, o = self.prog, self.so
+    cd = prog["classes"][t["i"]]
+    if t.get("args"):
+        cd = specialize(cd, t["args"])
+    td = cd["flavor"] == "typeddict"
+    if td:
+        if v[0] not in ("tdict", "dict"):
+            raise Mismatch
+        vals = v[1] if v[0] == "tdict" else {kc[1]: vc for kc, vc in v[1]}
+    else:
+        if v[0] != "obj" or v[1] != cd["name"]:
+            raise Mismatch
+        vals = v[2]
+    out: Dict[str, Any] = {}
+    for f in ser_fields(cd):
+        n = f["n"]
+        if td:
+            if n not in vals:
+                if is_required(f, cd):
+                    raise Mismatch
+                continue
+        elif n not in vals:
+            raise Mismatch
+        val = vals[n]
+        sk = f.get("skip") or {}
+        ftype = f["t"]
+        # a `required` field is always emitted (its default only serves construction)
+        has_default = f.get("default") is not None and not td and not f.get("required")
+        if val[0] == "undef":
+            continue
+        if sk.get("ser_if") and PRED[sk["ser_if"]](val, prog):
+            continue
+        if has_default and (sk.get("ser_default") or o.exclude_defaults) and py_equal(val, f["default"]["c"]):
+            continue
+        if f.get("none_as_undefined") and val[0] == "none":
+            continue
+        if o.exclude_none and val[0] == "none":
+            alts = union_alts(ftype) if ftype["k"] in ("opt", "union") else [ftype]
+            if any(a["k"] == "none" for a in alts) and any(a["k"] != "none" for a in alts):
+                continue
+            raise Unspecified("exclude_none on a non-Optional field holding None")
+        agg = f.get("agg")
+        ft = remove_none(ftype) if f.get("none_as_undefined") else ftype
+        if agg is None:
+            out[ext_name(f, cd, o.aliaser)] = self.ser(ft, val)
+        else:
+            sub = self.ser(ft, val)
+            if not isinstance(sub, dict):
+                raise Unspecified("aggregate field image is not an object")
+            for kk, vv in sub.items():
+                out[kk] = vv
+    if td and o.additional_properties:
+        names = {f["n"] for f in cd["fields"]}
+        for kk, vv in vals.items():
+            if kk not in names and kk not in out:
+                out[kk] = self.ser_any(vv)
+    return out
+
+
+def _serialize(self, t: dict, v, sopts: Optional[SerOpts] = None):
+    self.so = sopts or SerOpts()
+    return self.ser(t, v)
+
+
+Model.ser = _ser
+Model.ser_any = _ser_any
+Model.ser_object = _ser_object
+Model.serialize = _serialize
+
+
+def json_eq(expected, got) -> bool:
+    """Equality of JSON images; Unordered lists compare as multisets; containers type-exact."""
+    if isinstance(expected, Unordered):
+        if got.__class__ is not list or len(got) != len(expected):
+            return False
+        rest = list(got)
+        for e in expected:
+            for i, g in enumerate(rest):
+                if json_eq(e, g):
+                    del rest[i]
+                    break
+            else:
+                return False
+        return True
+    if isinstance(expected, list):
+        return got.__class__ is list and len(got) == len(expected) and all(json_eq(e, g) for e, g in zip(expected, got))
+    if isinstance(expected, dict):
+        return got.__class__ is dict and list(expected) == list(got) and all(json_eq(expected[k], got[k]) for k in expected)
+    if isinstance(expected, bool) or isinstance(got, bool):
+        return isinstance(expected, bool) and isinstance(got, bool) and expected == got
+    if isinstance(expected, float) or isinstance(got, float):
+        return isinstance(expected, float) and isinstance(got, float) and (expected == got or (expected != expected and got != got))
+    return expected == got and isinstance(got, type(expected))
+
+
+def plain(x):
+    """Unordered -> list (for printing)."""
+    if isinstance(x, list):
+        return [plain(y) for y in x]
+    if isinstance(x, dict):
+        return {k: plain(v) for k, v in x.items()}
+    return x
